@@ -31,6 +31,9 @@ impl C02 {
 		cfg.w_new_invoice += 4;
 		cfg.allow_late_lock = true;
 		cfg.allow_self_send = true;
+		// known defect family (C04/C05): a later transaction that spends this one's
+		// still-unconfirmed change re-tags the records the exactness oracle reads
+		cfg.avoid_spend_unconfirmed = true;
 		let p_mutate = if run.rng.chance(1, 4) { 0 } else { 20 + run.rng.below(40) };
 		let gen = HistGen::new(cfg, run);
 		C02 {
@@ -150,6 +153,17 @@ impl C02 {
 			.filter(|o| o.status == OutputStatus::Locked || o.status == OutputStatus::Spent)
 			.map(|o| o.value as u128)
 			.sum();
+		// recorded change: the private context read at reservation time when the
+		// DealBook has it (records can be re-tagged by a later transaction that spends
+		// unconfirmed change - a known defect judged under C04/C05), else the records
+		let change: Vec<(Commitment, u64)> = if !deal.change.is_empty() && !deal.late_lock {
+			deal.change
+				.iter()
+				.filter_map(|(k, v)| grin_keychain::Identifier::from_hex(k).ok().map(|id| (commit(*v, &id), *v)))
+				.collect()
+		} else {
+			change
+		};
 		let change_sum: u128 = change.iter().map(|c| c.1 as u128).sum();
 		let fee = tx.fee() as u128;
 		// fee agreed at initiation
